@@ -1,6 +1,7 @@
 import GormModel.Drv.Util
 import GormModel.Model.Migrate
 import GormModel.Model.MigrateOpts
+import GormModel.Model.MigrateJoin
 open Lean
 namespace Gorm.Drv
 open Gorm.Mig
@@ -139,6 +140,8 @@ open HC20 in
     ["mig.fksopt", [models…], [tables…], disableFK, ignoreRel] -> {table: [constraint names AutoMigrate/CreateTable reconcile]}
     ["mig.constraint", rel, [rels of the referenced schema…]] -> null | {name,schema,ref,fks,refs,ondelete,onupdate}
     ["mig.addcolumn", table, field]       -> the ALTER TABLE … ADD … statement text
+    ["mig.jointag", tag]                  -> {tag, body, settings:[[KEY,value]…], unique, indexed, pk, autoinc}: the join-table
+        field buildMany2ManyRelation derives from a source field with struct tag `tag` (Model/MigrateJoin.lean)
     ["mig.indexes", [entries…]]           -> [{name,class,type,where,comment,option,fields:[[field,priority]…]}…] -/
 def handleC20 (op : String) (args : Array Json) : Option Json := do
   match op with
@@ -186,6 +189,13 @@ def handleC20 (op : String) (args : Array Json) : Option Json := do
     let t := (← jStr? (arg args 1)).toList
     let f ← parseField (arg args 2)
     some (sJ (addColumnSQL t f))
+  | "mig.jointag" =>
+    let tag := (← jStr? (arg args 1)).toList
+    let c := joinCol joinStrip tag
+    some (Json.mkObj [("tag", sJ c.tag), ("body", sJ c.body),
+      ("settings", Json.arr (c.settings.map fun p => Json.arr #[sJ p.1, sJ p.2]).toArray),
+      ("unique", Json.bool c.unique), ("indexed", Json.bool c.indexed), ("pk", Json.bool c.primaryKey),
+      ("autoinc", Json.bool c.autoIncrement)])
   | "mig.indexes" =>
     let es ← (← jArr? (arg args 1)).toList.mapM parseEntry
     some (Json.arr ((parseIndexes es).map fun i => Json.mkObj [
